@@ -316,3 +316,128 @@ Section Laws.
     - rewrite qsegs_length, breaktime_Tq, Hr. exact H1.
   Qed.
 End Laws.
+
+(* ====================================================================================
+   Deepening round: coinciding breakpoints / zero-length segments, evaluation exactly at segment
+   ends, times before the offset, and totality of the evaluation. *)
+
+(* a zero-length segment is never the located one: "inside" it there is no time *)
+Lemma zero_length_never_located e k s x :
+  segment e k = Some s -> toQ (s_dur s) == 0 -> ~ (breaktime e k <= x /\ x < breaktime e (S k)).
+Proof. intros Hs Hd [H1 H2]. pose proof (segment_dur e k s Hs). lra. Qed.
+
+Lemma Tq_0 b segs : Tq b segs 0 = b.
+Proof. destruct segs; reflexivity. Qed.
+Lemma Lq_0 b segs : Lq b segs 0 = b.
+Proof. destruct segs; reflexivity. Qed.
+
+(* the search loop always answers, with a value between two consecutive levels or the last level *)
+Lemma at_segs_total sv segs : forall start begin time,
+  durs_nonneg segs -> begin <= time ->
+  Forall (fun s => seg_inside sv (q_shape s) (q_curve s)) segs ->
+  exists v j, at_segs sv segs start begin time = Ok v /\ (j <= length segs)%nat
+    /\ Tq begin segs j <= time
+    /\ ((j < length segs)%nat -> time < Tq begin segs (S j) /\ between (Lq start segs j) (Lq start segs (S j)) v)
+    /\ (j = length segs -> v = Lq start segs j).
+Proof.
+  induction segs as [|s r IH]; intros start begin time Hd Ht Hin.
+  - exists start, 0%nat. simpl. repeat split; try lia; try lra.
+  - inversion Hd as [|? ? Hs Hr]; subst. inversion Hin as [|? ? His Hir]; subst. simpl.
+    destruct (Qlt_bool time (begin + q_dur s)) eqn:E.
+    + apply Qlt_bool_true in E. destruct (pos_range time begin (q_dur s) Ht E) as [Hp0 Hp1].
+      destruct (His start (q_target s) _ Hp0 Hp1) as (v & Hv & Hb).
+      exists v, 0%nat. split; [exact Hv|]. split; [simpl; lia|]. split; [simpl; lra|]. split.
+      * intros _. simpl. rewrite Tq_0, Lq_0. split; [exact E|exact Hb].
+      * simpl. intros Habs. discriminate.
+    + apply Qlt_bool_false in E.
+      destruct (IH (q_target s) (begin + q_dur s) time Hr E Hir) as (v & j & Hv & Hj & HT & Hlt & Heq).
+      exists v, (S j). split; [exact Hv|]. split; [simpl; lia|]. split; [simpl; exact HT|]. split.
+      * intros Hlt'. simpl in Hlt'. simpl. apply Hlt. lia.
+      * intros Heq'. simpl in Heq'. simpl. apply Heq. lia.
+Qed.
+
+Section Laws2.
+  Variable sv : SV.
+  Variable e : env.
+  Variable o : num.
+  Hypothesis Hwf : wf_env e.
+  Hypothesis Hoff : offset e = Some o.
+  Hypothesis Hnn : times_nonneg e.
+
+  (* at ANY time that is (as a rational) a breakpoint whose segment has a positive length *)
+  Lemma env_at_breakpoint_at k s t :
+    segment e k = Some s -> 0 < toQ (s_dur s) ->
+    seg_starts sv (toQ (s_shape s)) (toQ (s_curve s)) ->
+    t - toQ o == breaktime e k ->
+    exists v, env_at_with sv e t = Ok v /\ v == level_at e k.
+  Proof.
+    intros Hs Hd Hst Ht. pose proof (segment_dur e k s Hs) as Hsd.
+    destruct (env_at_located sv e o Hwf Hoff Hnn k s t Hs) as (b & Hb & Heq); [lra|lra|].
+    rewrite Heq. apply Hst. apply pos_zero; [|exact Hd].
+    assert (H0 : 0 <= breaktime e k).
+    { rewrite <- breaktime_Tq. apply Tq_mono, durs_nonneg_qsegs, Hnn. }
+    rewrite rel_time_eq; rewrite (offsetQ_o e o Hoff); lra.
+  Qed.
+
+  (* coinciding breakpoints (zero-length segments between j and k): the level returned is that
+     of the LAST of them, the one from which the next segment of positive length starts *)
+  Lemma env_at_coinciding j k s :
+    segment e k = Some s -> 0 < toQ (s_dur s) ->
+    seg_starts sv (toQ (s_shape s)) (toQ (s_curve s)) ->
+    breaktime e j == breaktime e k ->
+    exists v, env_at_with sv e (toQ o + breaktime e j) = Ok v /\ v == level_at e k.
+  Proof. intros Hs Hd Hst Hjk. apply (env_at_breakpoint_at k s); try assumption. lra. Qed.
+
+  (* exactly at the end of the envelope -- also when trailing segments have length zero *)
+  Lemma env_at_end j t :
+    times e <> [] -> breaktime e j == breaktime e (length (times e)) -> t - toQ o == breaktime e j ->
+    env_at_with sv e t = Ok (level_at e (length (times e))).
+  Proof. intros Hne Hj Ht. apply (env_at_after sv e o Hwf Hoff Hnn); [exact Hne|lra]. Qed.
+
+  (* before the offset (in particular for negative times) the envelope is evaluated at its start *)
+  Lemma env_at_before_offset t :
+    t - toQ o <= 0 -> env_at_with sv e t = env_at_with sv e (toQ o).
+  Proof.
+    intros Ht. unfold env_at_with. destruct (envgen_format e); [|reflexivity]. cbn [bind]. rewrite Hoff.
+    f_equal. unfold rel_time. rewrite (offsetQ_o e o Hoff).
+    assert (H1 : Qlt_bool 0 (t - toQ o) = false) by (apply Qlt_bool_false; exact Ht).
+    assert (H2 : Qlt_bool 0 (toQ o - toQ o) = false) by (apply Qlt_bool_false; lra).
+    rewrite H1, H2. reflexivity.
+  Qed.
+
+  (* totality: for EVERY time the evaluation answers, with a value between two consecutive levels
+     (segment k, whose length is then positive) or with the last level *)
+  Lemma env_at_total t :
+    times e <> [] ->
+    (forall k s, segment e k = Some s -> seg_inside sv (toQ (s_shape s)) (toQ (s_curve s))) ->
+    exists v k, env_at_with sv e t = Ok v /\ (k <= length (times e))%nat
+      /\ ((k < length (times e))%nat -> between (level_at e k) (level_at e (S k)) v)
+      /\ (k = length (times e) -> v = level_at e k).
+  Proof.
+    intros Hne Hin. rewrite (env_at_segs sv e o t Hwf Hne Hoff).
+    assert (Ht : 0 <= rel_time e t).
+    { unfold rel_time. destruct (Qlt_bool 0 (t - offsetQ e)) eqn:E; [apply Qlt_bool_true in E; lra|lra]. }
+    assert (Hall : Forall (fun s => seg_inside sv (q_shape s) (q_curve s)) (qsegs e)).
+    { apply Forall_forall. intros q Hq. apply In_nth_error in Hq. destruct Hq as (k & Hk).
+      unfold qsegs in Hk. rewrite nth_error_map in Hk.
+      destruct (nth_error (d_segs (normalise e)) k) as [s|] eqn:Es; [|discriminate].
+      inversion Hk; subst q. apply (Hin k s). exact Es. }
+    destruct (at_segs_total sv (qsegs e) (start_level e) 0 (rel_time e t)
+                (durs_nonneg_qsegs e Hnn) Ht Hall) as (v & j & Hv & Hj & _ & Hlt & Heq).
+    rewrite qsegs_length in *. exists v, j. split; [exact Hv|]. split; [exact Hj|]. split.
+    - intros Hjl. destruct (Hlt Hjl) as [_ Hb].
+      rewrite (level_at_Lq e j Hwf) in Hb by lia. rewrite (level_at_Lq e (S j) Hwf) in Hb by lia. exact Hb.
+    - intros Hjl. rewrite (Heq Hjl). apply level_at_Lq; [exact Hwf|lia].
+  Qed.
+End Laws2.
+
+(* a missing offset (offset=None) makes the evaluation raise: time - None *)
+Lemma env_at_offset_none sv e t : wf_env e -> offset e = None -> env_at_with sv e t = Err TypeError.
+Proof. intros Hwf Ho. unfold env_at_with. rewrite (envgen_format_encode e Hwf). cbn [bind]. rewrite Ho. reflexivity. Qed.
+(* an envelope without a segment cannot be evaluated: "Env must have at least one stage" *)
+Lemma env_at_no_segment sv e o t : wf_env e -> offset e = Some o -> times e = [] ->
+  env_at_with sv e t = Err ValueError.
+Proof.
+  intros Hwf Ho Ht. unfold env_at_with. rewrite (envgen_format_encode e Hwf). cbn [bind]. rewrite Ho.
+  unfold env_at_data, encode_env. cbn [normalise d_segs]. rewrite Ht. reflexivity.
+Qed.
